@@ -355,6 +355,10 @@ func replay(chk *checks.Check, path string, seed int64) int {
 	if tier == "" {
 		tier = "quick"
 	}
+	if v.Clause == "crash" || v.Clause == "hang" {
+		fmt.Printf("replay of %s: the recorded case killed / hung the worker process (%s); it is identified by the write-ahead log of a re-run, not by a choice vector. Re-run `./check %s %s` to see whether it still does. Case: %s\n", path, v.Clause, chk.Meta.Property, tier, v.Witness)
+		return 2
+	}
 	ctx := report.NewCtx(chk.Meta.Property, tier, seed, 0, 1, time.Time{})
 	ctx.Replay = &v
 	chk.Run(ctx)
@@ -364,6 +368,16 @@ func replay(chk *checks.Check, path string, seed int64) int {
 	}
 	if len(res.HarnessErrors) > 0 {
 		return 2
+	}
+	// searches without choice vector report everything they find: keep the recorded witness only
+	if v.Choices == nil {
+		var same []report.Violation
+		for _, nv := range res.Violations {
+			if nv.Clause == v.Clause && nv.Witness == v.Witness {
+				same = append(same, nv)
+			}
+		}
+		res.Violations = same
 	}
 	if len(res.Violations) == 0 {
 		fmt.Printf("replay of %s: the recorded case no longer fails (clause %s, witness %s)\n", path, v.Clause, v.Witness)
